@@ -8,8 +8,10 @@ EXPLANATION = (
     "interleavings: every access of the shared AsyncLogState fields (ioTick, ioThreadRunning, curSize, "
     "numDiscarded, the queue selector) happens with state_.lock held, with one audited exception - the "
     "flusher's use of the swapped-out queue pointer, which it obtained inside the critical section "
-    "that then flips ioTick (ownership hand-over); the backlog test 'size + backlog > max' dominates "
-    "the enqueue, its drop edge increments numDiscarded and enqueues nothing; the amount added to the "
+    "that then flips ioTick (ownership hand-over); every other field of Log / AsyncLogState reached "
+    "from two threads with a write outside construction has one common lock (generic audit); the "
+    "backlog test 'size + backlog > max' (or 'backlog > max - size' where size <= max dominates it, so "
+    "the unsigned difference cannot wrap) dominates the enqueue, its drop edge increments numDiscarded and enqueues nothing; the amount added to the "
     "backlog is the size of the enqueued text taken before it is moved (no use-after-move); the flusher "
     "resets curSize/numDiscarded inside the swapping critical section and reports drops when the "
     "count is non-zero; the silencing flag is thread_local; kmsgLog does not consult it; the destructor "
@@ -50,6 +52,13 @@ def run(ctx):
             ctx.check(LOCK in h, "state-under-lock:%s:%s" % (fld, short(owner)), "guarded_by(lockset)", f.loc(i),
                       "%s is accessed with state_.lock held" % fld,
                       "%s is accessed without state_.lock in %s: data race between producers, flusher and shutdown" % (fld, owner.pq))
+    # generic audit: every field of Log / AsyncLogState shared between threads (also ones added later) has one common lock
+    cd = {f.usr for f in P.fns.values() if f.kind in ("ctor", "dtor") and f.cls in ("Oomd::Log", "Oomd::Log::AsyncLogState")}
+    LA2 = LockAnalysis(P, cg, ignore_callers=cd)
+    roots = {}
+    for t_usr, creator, node in cg.thread_roots:
+        roots[creator.pq.split("::")[-1] + "@" + str(len(roots))] = t_usr
+    shared_fields_rule(ctx, LA2, ["Oomd::Log", "Oomd::Log::AsyncLogState"], roots, self_concurrent=list(roots) + ["main"], floor=3)
     ctx.counters["guarded_field_accesses"] = n
     ctx.floor("guarded_field_accesses", 10, "accesses of the AsyncLogState fields")
     for f in (dbg, io):
@@ -88,21 +97,45 @@ def run(ctx):
     fd = Flow(P, dbg, cg=cg)
     ctx.counters["enqueue_sites"] = len(enq)
     ctx.floor("enqueue_sites", 1, "enqueue in debugLog")
-    capkey = re.compile(r"^\(this->state_\.maxSize < \((buf\.size\(\) \+ this->state_\.curSize|this->state_\.curSize \+ buf\.size\(\))\)\)$")
-    fcap = Flow(P, dbg, cg=cg, edge_tokens=lambda k, p: ["under-cap"] if (capkey.match(k) and p is False) else None)
+    SZ, CUR, MAX = r"buf\.(?:size|length)\(\)", r"this->state_\.curSize", r"this->state_\.maxSize"
+    capA = re.compile(r"^\(%s < \((?:%s \+ %s|%s \+ %s)\)\)$" % (MAX, SZ, CUR, CUR, SZ))          # size + backlog > max
+    capB = re.compile(r"^\(\(%s - %s\) < %s\)$" % (MAX, SZ, CUR))                                 # backlog > max - size   (needs size <= max)
+    und = re.compile(r"^\(%s < %s\)$" % (MAX, SZ))                                                  # size > max
+
+    class capkey:                     # the over-cap condition in either spelling
+        @staticmethod
+        def match(k):
+            return capA.match(k) or capB.match(k)
+    def cap_tokens(k, p):
+        out = []
+        if capkey.match(k) and p is False:
+            out.append("under-cap")
+        if capA.match(k) and p is False:
+            out.append("under-cap-by-sum")
+        if und.match(k) and p is False:
+            out.append("size-within-cap")
+        return out or None
+    fcap = Flow(P, dbg, cg=cg, edge_tokens=cap_tokens)
     for i in enq:
         g = fd.guards(i)
         ctx.check(fcap.must(i, "under-cap"), "cap-test-dominates-enqueue", "passed_edge", dbg.loc(i),
                   "a line is enqueued only if size + backlog <= maxSize",
                   "the enqueue is not dominated by the backlog cap test", witness_path(dbg, fd, i))
+        # the subtracting spelling is only a cap test where the unsigned difference cannot wrap
+        if fcap.must(i, "under-cap") and not fcap.must(i, "under-cap-by-sum"):
+            ctx.check(fcap.must(i, "size-within-cap"), "cap-test-cannot-wrap", "guarded_by (unsigned subtraction)", dbg.loc(i),
+                      "maxSize - size is computed only for size <= maxSize",
+                      "the cap test subtracts the line size from maxSize without first excluding size > maxSize: for a line larger than the cap the "
+                      "unsigned difference wraps to about 2^64, the test is never true and the line is always enqueued (unbounded backlog)", witness_path(dbg, fd, i))
     disc = [w for w in field_writes(dbg, "numDiscarded")]
     for w in disc:
         g = fd.guards(w)
-        ctx.check(any(capkey.match(k) and p is True for k, p in g), "drop-counted-on-cap-edge", "guarded_by", dbg.loc(w), "drops are counted on the over-cap edge",
+        ctx.check(any((capkey.match(k) or und.match(k)) and p is True for k, p in g) or
+                  any(k.startswith("((") and " || " in k and p is True and ("maxSize" in k) for k, p in g), "drop-counted-on-cap-edge", "guarded_by", dbg.loc(w), "drops are counted on the over-cap edge",
                   "numDiscarded changes outside the over-cap edge")
     ev = {i: [("set", "enqueued")] for i in enq}
     ev.update({w: [("set", "counted-drop")] for w in disc})
-    fd2 = Flow(P, dbg, events=ev, cg=cg, edge_tokens=lambda k, p: ["over-cap"] if (capkey.match(k) and p is True) else None)
+    fd2 = Flow(P, dbg, events=ev, cg=cg, edge_tokens=lambda k, p: ["over-cap"] if ((capkey.match(k) or und.match(k)) and p is True) else None)
     okd = True
     for kind, node, b, parts in fd2.exits():
         for st in parts.values():
